@@ -95,6 +95,10 @@ pub fn echo_mut<Q: CustomQuery, C>(
     if let Some(info) = info {
         r = r.add_attribute("sender", info.sender.to_string()).add_attribute("funds", j(&info.funds));
     }
+    // every other call also returns data (what reaches the caller as response data is part of the outcome)
+    if seen % 2 == 1 {
+        r = r.set_data(format!("data-of-{}-{}", name, seen).into_bytes());
+    }
     Ok(r)
 }
 
